@@ -175,7 +175,8 @@ def run(ck):
             shapes.add(json.dumps(b["steps"]))
     # the finding's scenario goes last (so that one validation run covers everything before it)
     for cat, h, b, unit in leakjobs:
-        jobs.append(mu.mk_job(len(jobs) + 1, cat, h, b, unit))
+        # free tail: an as-is schedule executed on a repaired tree needs another number of batches after the removal
+        jobs.append(mu.mk_job(len(jobs) + 1, cat, h, b, unit, free=True))
         shapes.add(json.dumps(b["steps"]))
 
     # ---- 3. execute on the real code, validate
